@@ -89,6 +89,21 @@ func addMapping(m *Map, seqno, delta, pidDelta uint16) {
 	i := m.lastEntry
 	if delta == m.entries[i].delta && pidDelta == m.entries[i].pidDelta {
 		m.entries[m.lastEntry].count = seqno - m.entries[i].first + 1
+		if m.entries[m.lastEntry].count > 2*8192 {
+			// Intervals are compared modulo 2^16, so they must
+			// stay short, and stale intervals alias with current
+			// seqnos after 2^16 packets.  Nothing older than 8192
+			// packets can be mapped anyway, so forget the past.
+			m.entries = []entry{
+				{
+					first:    seqno - 8192 + 1,
+					count:    8192,
+					delta:    delta,
+					pidDelta: pidDelta,
+				},
+			}
+			m.lastEntry = 0
+		}
 		return
 	}
 
